@@ -437,8 +437,10 @@ func (m *vfModel) allowed(e *vfEnt, r RequestResult) (bool, string, string) {
 	c := &m.cur
 	switch r.code {
 	case requestTerminated:
-		if !c.closing[e.kind] {
-			return false, "c12-unjustified-terminated", "Terminated although this step did not close the " + vfKindName[e.kind] + " table"
+		// truthful iff the table is being / has been closed (a repaired add()
+		// may terminate late comers after close())
+		if !c.closing[e.kind] && !m.closed[e.kind] {
+			return false, "c12-unjustified-terminated", "Terminated although the " + vfKindName[e.kind] + " table is not closed"
 		}
 		return true, "", ""
 	case requestTimeout:
